@@ -11,12 +11,17 @@ def ob(name, defs, bounds, **kw):
 MODES = ["ALL", "EVEN", "ODD", "BYTE0", "BYTE1", "BYTE2", "BYTE3", "WORD0", "WORD1"]
 SHORTCPU = {1: "0x11", 2: "0x70", 4: "0x76"}
 OBLIGATIONS = []
+# quick tier: two light slices (one record, smaller window) so that the per-change command stays well below 15 minutes;
+# the full 27 granularity x mode slices are the thorough tier
+for g, m, cl, wm in ((1, 1, 4, 16), (4, 7, 4, 16)):
+    OBLIGATIONS.append(ob("image_q_g%d_%s" % (g, MODES[m].lower()), ["CF_R=1", "CF_L=%d" % cl, "STRINGSIZE=16", "GRAN=%d" % g, "MODE=%d" % m, "SHORTCPU=%s" % SHORTCPU[g], "WINMAX=%d" % wm, "NO_OFFSET"],
+                          "1 record x <= %d bytes (long and short form), granularity %d, -m %s, any start < 2^31, image window <= %d bytes (not necessarily aligned to the lane group), -S -4..4, -e, -f list <= 2, -segment, auto/explicit range, no (offset) suffix" % (cl, g, MODES[m], wm),
+                          timeout=1500))
 for g in (1, 2, 4):
     for m in range(9):
-        quick = (g, m) in ((1, 1), (4, 7))
-        OBLIGATIONS.append(ob("image_g%d_%s" % (g, MODES[m].lower()), ["CF_R=2", "CF_L=4", "STRINGSIZE=16", "GRAN=%d" % g, "MODE=%d" % m, "SHORTCPU=%s" % SHORTCPU[g]] + (["WINMAX=24"] if quick else []),
-                              "2 records x <= 4 bytes (long and short form), granularity %d, -m %s, any start < 2^31, image window <= %d bytes (not necessarily aligned to the lane group), -S -4..4, -e, -f list <= 2, -segment, auto/explicit range, (offset) <= 0x1000" % (g, MODES[m], 24 if quick else 64),
-                              timeout=3000, tier="quick" if quick else "thorough"))
+        OBLIGATIONS.append(ob("image_g%d_%s" % (g, MODES[m].lower()), ["CF_R=2", "CF_L=4", "STRINGSIZE=16", "GRAN=%d" % g, "MODE=%d" % m, "SHORTCPU=%s" % SHORTCPU[g]],
+                              "2 records x <= 4 bytes (long and short form), granularity %d, -m %s, any start < 2^31, image window <= 64 bytes (not necessarily aligned to the lane group), -S -4..4, -e, -f list <= 2, -segment, auto/explicit range, (offset) <= 0x1000" % (g, MODES[m]),
+                              timeout=3000, tier="thorough"))
 OBLIGATIONS.append(dict(name="removeoffset", src="offset.c", include=["toolutils.c"], defs=["STRINGSIZE=16"], unwind=10, unwind_fn={"harness": 10},
     functions=["toolutils.c:RemoveOffset"], bounds="file arguments of 0..5 arbitrary characters, arbitrary previous content of the offset variable",
     assumes=["ConstLongInt (number parsing) cut to 'returns an arbitrary value, success'"]))
